@@ -150,7 +150,7 @@ pub fn record(output: &str) {
     let n = if thorough() { 20_000 } else { 2_000 };
     let nano = |x: f64| -> i64 { if x.is_finite() { (x * 1e9).round().min(2e9) as i64 } else { 2_000_000_000 } };
     for k in 0..n {
-        let mut p = robots::geometry(robots::GEOMETRY_CLASSES[k % 7], &mut r);
+        let mut p = robots::geometry(robots::GEOMETRY_CLASSES[k % robots::GEOMETRY_CLASSES.len()], &mut r);
         p = robots::convention(p, r.gen_range(0..64), ["zero", "quarter", "random"][k % 3], &mut r);
         let robot = Robot::new(p, vec![], None);
         // a small displacement so that the moved pose stays reachable most of the time
@@ -168,7 +168,7 @@ pub fn record(output: &str) {
         let costs: Vec<i64> = sols.iter().map(|s| (0..6).map(|j| rad2au(s[j]) - rad2au(prev[j])).map(|d: i64| d.abs()).sum()).collect();
         out.put(json!({"ev": "ftrans", "outcome": "ok", "pose_pos_nm": nano(got.dpos(&want)), "pose_rot_nrad": nano(got.drot(&want)),
             "answers": sols.iter().map(|a| solver::answer_facts(&robot, &want, a)).collect::<Vec<_>>(),
-            "costs": costs, "prev": au6(&prev), "geom": robots::GEOMETRY_CLASSES[k % 7]}));
+            "costs": costs, "prev": au6(&prev), "geom": robots::GEOMETRY_CLASSES[k % robots::GEOMETRY_CLASSES.len()]}));
     }
     out.finish();
 }
